@@ -21,10 +21,11 @@ TagArgs == {0, 2, 4, 5, 31, 48, 49, 128, 160, 255}
 GrowArgs == {1, 16, 300, 70000}
 FillArgs == {0, 127, 128, 255}
 NestArgs == {4, 64, 1000}
+RepArgs == {3, 10, 33, 80, 400}                                                     \* a member repeated that many times (bounded output arrays)
 TruncArgs == {0, 1, 2}
 ArgsOf(k) == CASE k \in {"len+", "len-"} -> LenArgs [] k = "len=" -> SetArgs [] k = "lenform" -> FormArgs [] k = "tag=" -> TagArgs [] k = "grow" -> GrowArgs
-               [] k = "fill" -> FillArgs [] k = "nest" -> NestArgs [] k = "trunc" -> TruncArgs [] OTHER -> {0}
-TreeKinds == {"len+", "len-", "len=", "lenform", "tag=", "trunc", "drop", "dup", "empty", "grow", "fill", "swap", "nest"}
+               [] k = "fill" -> FillArgs [] k = "nest" -> NestArgs [] k = "rep" -> RepArgs [] k = "trunc" -> TruncArgs [] OTHER -> {0}
+TreeKinds == {"len+", "len-", "len=", "lenform", "tag=", "trunc", "drop", "dup", "rep", "empty", "grow", "fill", "swap", "nest"}
 (* live streams: which record, which edit of it *)
 StreamKinds == {"setb", "flip", "cut", "pad", "trunc", "drop", "dup", "swap", "inject", "hdrflip"}
 StreamArgsOf(k) == CASE k = "setb" -> {0, 1, 127, 128, 255} [] k = "flip" -> {0, 7} [] k = "pad" -> {1, 4, 40} [] k = "inject" -> {0, 1, 2, 3, 4} [] k = "hdrflip" -> {0, 7} [] OTHER -> {0}
